@@ -83,6 +83,11 @@ func c13(frames, writes int) {
 		zzvrt.Assert(zzvrt.NumLive("readShipPump") == 0, "C13.read-pump-still-running")
 		zzvrt.Assert(zzvrt.NumLive("writeShipPump") == 0, "C13.write-pump-still-running")
 		zzvrt.Assert(e.connClosed, "C13.socket-not-closed")
+		if wdone == writes {
+			// name independent: writer, peer and closer threads of the harness have ended, so anything still alive is a
+			// goroutine of the library
+			zzvrt.Assert(zzvrt.NumLive("") == 0, "C13.library-goroutine-still-running")
+		}
 	}
 	zzvrt.Assert(wdone == writes, "C13.writer-blocked-forever")
 	zzvrt.Cover("c13.end")
